@@ -139,11 +139,14 @@ def behaviour(res, rng, tier):
         fieldless = rng.chance(1, 2)
         e = gen_enum(rng, ty, fieldless_only=fieldless)
         attrs, _ = repr_attrs_for(rng, ty)
-        if fieldless and "C" in attrs:
+        no_fields = all(v["kind"] not in ("tuple", "named") for v in e["variants"])
+        if (fieldless or no_fields) and "C" in attrs:   # rustc: repr(C) conflicts with an integer repr on a field-less enum (E0566)
             attrs = rng.choice([f"#[repr({ty})] ", f"#[repr({ty}, align(8))] ", f"#[repr(align(4))] #[repr({ty})] "])
         if not fieldless and ty not in attrs:
             attrs = f"#[repr({ty})] "
         gen = rng.choice(["", "", "<'a, const N: usize>"]) if fieldless else ""
+        if gen and ty not in attrs:
+            attrs = f"#[repr({ty})] "     # the variant added below has a field: rustc then demands an explicit integer repr (E0732)
         # generic parameters must be used: add a phantom variant with fields only when generics are present
         src = enum_src(e, attrs, "")
         if gen:
